@@ -402,7 +402,7 @@ def jwe_stream_producer(ctx, dist):
     bdir = ctx["bdir"]
     keys = G.standard_keys(bdir)
     quick = ctx["tier"] == "quick"
-    lens = [0, 1, 15, 16, 17, 31, 32, 33, 47, 48, 64, 100, 255, 256, 1000, 4095, 4096, 4097]
+    lens = [0, 1, 15, 16, 17, 31, 32, 33, 47, 48, 64, 100, 255, 256, 1000, 4095, 4096, 4097, 0, 16, 32, 48]
     wraps = ["dir", "A128KW"] + [w for w in ("ECDH-ES", "RSA-OAEP") if G.wrap_key(rnd, keys, w, "A128GCM") is not None]
     req, meta = [], []
     nper = 3 if quick else 12
@@ -440,6 +440,29 @@ def jwe_stream_producer(ctx, dist):
             continue
         dreq.append("jwedec\t%s\t-\t%s" % (o, G.dumps(key)))
         dmeta.append((c, m))
+    # the decrypting stage with a FURTHER stage behind it: a base64url encoder (whose tail is flushed in done()) and a
+    # sink whose done() fails -- what arrives is the encoding of the whole plaintext, and the head reports the failure
+    creq, cmeta = [], []
+    for d_, (c_, m_) in zip(dreq, dmeta):
+        tokt = d_.split("\t")[1]
+        ctl = len(json.loads(tokt).get("ciphertext", ""))
+        if len(m_[4]) > 600 or m_[0] not in ("dir", "A128KW"):
+            continue
+        for chs in ("%d" % ctl if ctl else "-", ",".join(["1"] * ctl) if 0 < ctl <= 120 else "%d,%d" % (ctl // 3, ctl - ctl // 3)):
+            for mode in ("b64", "faildone"):
+                creq.append("jwedecchain\t%s\t%s\t%s\t%s" % (tokt, G.dumps(m_[3]), chs, mode))
+                cmeta.append((m_, mode))
+    for c_, o, (m_, mode) in zip(creq, G.harness(bdir, creq), cmeta):
+        wrap, enc, zip_, key, pt, ch = m_
+        if o.startswith("CRASH"):
+            rep.violation("crash:jwe-dec-chain", "crash: " + o[:200], {"case": c_[:3000]})
+        elif mode == "b64" and o != "T " + (hx(py_enc(pt)) or "-"):
+            rep.violation("stream-dec:downstream-stage:%s" % enc, "streaming decryption (%s, %d plaintext octets%s) into a base64url encoder: %s arrives instead of the encoding of the plaintext"
+                          % (enc, len(pt), ", zip" if zip_ else "", "nothing / a failure" if not o.startswith("T ") else "%d characters" % (len(o) // 2 - 1)), {"case": c_[:3000], "implementation": o[:200]})
+        elif mode == "faildone" and not o.startswith("F"):
+            rep.violation("stream-dec:downstream-done-lost:%s" % enc, "streaming decryption (%s, %d plaintext octets) into a sink whose done() fails: the head of the chain reports success" % (enc, len(pt)),
+                          {"case": c_[:3000], "implementation": o[:100]})
+    dist["streaming decryption with a stage / failing sink behind it"] = len(creq)
     douts = G.harness(bdir, dreq)
     sym = []
     for d, o, (c, m) in zip(dreq, douts, dmeta):
@@ -461,7 +484,7 @@ def jwe_stream_producer(ctx, dist):
                               {"case": c[:3000], "decrypt": d[:3000], "model": o[:300]})
     dist["streaming encryptor products (chunked plaintext, with and without zip) decrypted"] = len(req)
     dist["... of which also decrypted by the Gallina model"] = nmodel
-    return len(req) + len(dreq) + nmodel
+    return len(req) + len(dreq) + nmodel + len(creq)
 
 
 def after_failure(ctx, dist):
